@@ -2518,6 +2518,11 @@ func c07EvPodObj(id int, g c07Groups, nodeName string) *corev1.Pod {
 func c07RsvObj(id int, g c07Groups, valid, assigned bool, phase schedulingv1alpha1.ReservationPhase, policy schedulingv1alpha1.ReservationAllocatePolicy) *schedulingv1alpha1.Reservation {
 	r := &schedulingv1alpha1.Reservation{ObjectMeta: metav1.ObjectMeta{Name: fmt.Sprintf("r%d", id), UID: types.UID(fmt.Sprintf("p%d", id))}}
 	r.Spec.Template = &corev1.PodTemplateSpec{}
+	rq := corev1.ResourceList{
+		apiext.ResourceGPUCore:        *resource.NewQuantity(50, resource.DecimalSI),
+		apiext.ResourceGPUMemoryRatio: *resource.NewQuantity(50, resource.DecimalSI),
+	}
+	r.Spec.Template.Spec.Containers = []corev1.Container{{Name: "c", Resources: corev1.ResourceRequirements{Requests: rq, Limits: rq}}}
 	r.Spec.AllocatePolicy = policy
 	if valid {
 		r.Spec.Owners = []schedulingv1alpha1.ReservationOwner{{Object: &corev1.ObjectReference{Kind: "Pod", Name: "owner"}}}
@@ -2609,6 +2614,7 @@ type c07EvCase struct {
 	pl      *Plugin
 	podH    cache.ResourceEventHandler
 	rsvH    cache.ResourceEventHandler
+	devH    cache.ResourceEventHandler
 	rcache  *frameworkext.FakeReservationCache
 	node    *corev1.Node
 	ni      *framework.NodeInfo
@@ -2722,13 +2728,56 @@ func (c *c07EvCase) rInfo(rv *c07EvRsv) *frameworkext.ReservationInfo {
 	return ri
 }
 
+// fields the handlers must NOT look at: a deleted object usually carries a DeletionTimestamp, a live pod may be
+// Pending / Running / terminating, carry labels, a resourceVersion …
+func (c *c07EvCase) decorate(pod *corev1.Pod, deleting bool) *corev1.Pod {
+	r := c.r
+	if r.Chance(1, 2) == deleting || r.Chance(1, 6) {
+		now := metav1.NewTime(time.Unix(1700000000, 0))
+		pod.DeletionTimestamp = &now
+		g := int64(30)
+		pod.DeletionGracePeriodSeconds = &g
+		c.h.Tag("object:deletion-timestamp")
+	}
+	switch r.Intn(4) {
+	case 0:
+		pod.Status.Phase = corev1.PodPending
+	case 1:
+		pod.Status.Phase = corev1.PodRunning
+	case 2:
+		if deleting { // deletePod does not care whether the pod had terminated
+			if r.Bool() {
+				pod.Status.Phase = corev1.PodFailed
+			} else {
+				pod.Status.Phase = corev1.PodSucceeded
+			}
+		}
+	}
+	if r.Bool() {
+		pod.Labels = map[string]string{"app": "x"}
+		pod.ResourceVersion = strconv.Itoa(r.Range(1, 999))
+	}
+	return pod
+}
+
+func (c *c07EvCase) decorateRsv(rv *schedulingv1alpha1.Reservation, deleting bool) *schedulingv1alpha1.Reservation {
+	if c.r.Chance(1, 2) == deleting {
+		now := metav1.NewTime(time.Unix(1700000000, 0))
+		rv.DeletionTimestamp = &now
+	}
+	if c.r.Bool() {
+		rv.Labels = map[string]string{"app": "x"}
+	}
+	return rv
+}
+
 // ---- mutating events ----
 
 func (c *c07EvCase) evPodAdd(shape int, p *c07EvPod) {
 	h := c.h
 	h.Op("evadd %d %d 1 0 %s", shape, p.id, p.g.tok())
 	before := c.cur
-	if h.Guard(func() { c.podH.OnAdd(c07Shaped(shape, c07EvPodObj(p.id, p.g, c07Node), "default/p"), false) }) {
+	if h.Guard(func() { c.podH.OnAdd(c07Shaped(shape, c.decorate(c07EvPodObj(p.id, p.g, c07Node), false), "default/p"), false) }) {
 		h.Obs("panic")
 		return
 	}
@@ -2764,11 +2813,11 @@ func (c *c07EvCase) evPodUpdate(so, sn int, p *c07EvPod, terminated bool) {
 		mid = c.midLedger(p.id, p.g.api())
 	}
 	if h.Guard(func() {
-		np := c07EvPodObj(p.id, p.g, c07Node)
+		np := c.decorate(c07EvPodObj(p.id, p.g, c07Node), false)
 		if terminated {
 			np.Status.Phase = corev1.PodSucceeded
 		}
-		c.podH.OnUpdate(c07Shaped(so, c07EvPodObj(p.id, p.g, c07Node), "default/p"), c07Shaped(sn, np, "default/p"))
+		c.podH.OnUpdate(c07Shaped(so, c.decorate(c07EvPodObj(p.id, p.g, c07Node), false), "default/p"), c07Shaped(sn, np, "default/p"))
 	}) {
 		h.Obs("panic")
 		return
@@ -2794,7 +2843,7 @@ func (c *c07EvCase) evPodDelete(shape int, p *c07EvPod) {
 	h := c.h
 	h.Op("evdel %d %d 1 %s", shape, p.id, p.g.tok())
 	before := c.cur
-	if h.Guard(func() { c.podH.OnDelete(c07Shaped(shape, c07EvPodObj(p.id, p.g, c07Node), fmt.Sprintf("default/p%d", p.id))) }) {
+	if h.Guard(func() { c.podH.OnDelete(c07Shaped(shape, c.decorate(c07EvPodObj(p.id, p.g, c07Node), true), fmt.Sprintf("default/p%d", p.id))) }) {
 		h.Obs("panic")
 		return
 	}
@@ -2841,7 +2890,7 @@ func (c *c07EvCase) evRsvAdd(shape int, rv *c07EvRsv, valid, assigned, available
 	h.Op("rvadd %d %d %d %d %d 0 %s", shape, rv.id, vB(valid), vB(active), vB(assigned), rv.g.tok())
 	before := c.cur
 	if h.Guard(func() {
-		c.rsvH.OnAdd(c07Shaped(shape, c07RsvObj(rv.id, rv.g, valid, assigned, c07Phase(available, false), rv.policy), "r"), false)
+		c.rsvH.OnAdd(c07Shaped(shape, c.decorateRsv(c07RsvObj(rv.id, rv.g, valid, assigned, c07Phase(available, false), rv.policy), false), "r"), false)
 	}) {
 		h.Obs("panic")
 		return
@@ -2903,7 +2952,7 @@ func (c *c07EvCase) evRsvDelete(shape int, rv *c07EvRsv) {
 	h.Op("rvdel %d %d 1 1 1 0 %s", shape, rv.id, rv.g.tok())
 	before := c.cur
 	if h.Guard(func() {
-		c.rsvH.OnDelete(c07Shaped(shape, c07RsvObj(rv.id, rv.g, true, true, schedulingv1alpha1.ReservationAvailable, rv.policy), fmt.Sprintf("r%d", rv.id)))
+		c.rsvH.OnDelete(c07Shaped(shape, c.decorateRsv(c07RsvObj(rv.id, rv.g, true, true, schedulingv1alpha1.ReservationAvailable, rv.policy), true), fmt.Sprintf("r%d", rv.id)))
 	}) {
 		h.Obs("panic")
 		return
@@ -2936,6 +2985,75 @@ func (c *c07EvCase) evRsvDelete(shape int, rv *c07EvRsv) {
 	}
 	c.checkRecords("reservation delete", c.cur)
 	c.checkLedger(kind, before, c.cur)
+}
+
+// Device informer event (kind 0 add, 1 update, 2 delete) in the given shapes; the API object is c.inv
+func (c *c07EvCase) evDevice(kind, sa, sb int) {
+	h := c.h
+	dev := &schedulingv1alpha1.Device{ObjectMeta: metav1.ObjectMeta{Name: c07Node}}
+	invalidate := kind == 2
+	var toks []string
+	for _, d := range c.inv[0] {
+		minor := int32(d.minor)
+		dev.Spec.Devices = append(dev.Spec.Devices, schedulingv1alpha1.DeviceInfo{Type: c07Types[0], Minor: &minor, Health: d.healthy, Resources: c07RL(0, d.res), UUID: fmt.Sprintf("u-0-%d", d.minor)})
+		v := d.res
+		if !d.healthy || invalidate {
+			v = c07Absent
+		}
+		toks = append(toks, fmt.Sprintf("0 %d %s", d.minor, v.tok()))
+	}
+	decoded := (kind == 0 && sa == c07ShObj) || (kind == 1 && sa == c07ShObj && sb == c07ShObj) || (kind == 2 && (sa == c07ShObj || sa == c07ShTomb))
+	h.Op("dvref %d %d %d %d %s", kind, sa, sb, len(toks), strings.Join(toks, " "))
+	before := c.cur
+	if decoded {
+		c.noteRefresh(before, invalidate)
+	}
+	if c.r.Bool() {
+		now := metav1.NewTime(time.Unix(1700000000, 0))
+		dev.DeletionTimestamp = &now
+	}
+	if h.Guard(func() {
+		switch kind {
+		case 0:
+			c.devH.OnAdd(c07Shaped(sa, dev, c07Node), false)
+		case 1:
+			c.devH.OnUpdate(c07Shaped(sa, dev.DeepCopy(), c07Node), c07Shaped(sb, dev, c07Node))
+		default:
+			c.devH.OnDelete(c07Shaped(sa, dev, c07Node))
+		}
+	}) {
+		h.Obs("panic")
+		return
+	}
+	h.Tag(fmt.Sprintf("event:device:%d:shape%d-%d", kind, sa, sb))
+	if decoded && kind != 2 {
+		c.infoMin[0] = nil
+		for _, d := range c.inv[0] {
+			c.infoMin[0] = append(c.infoMin[0], d.minor)
+		}
+	}
+	c.cur = c.emitLedger()
+	c.checkRecords("device event", c.cur)
+	if !decoded {
+		c.checkLedger("absent", before, c.cur)
+		return
+	}
+	c.checkLedger("refresh", before, c.cur)
+	for _, d := range c.inv[0] {
+		var want c07Vals
+		if d.healthy && !invalidate {
+			for k := 0; k < c07D; k++ {
+				want[k] = d.res.val(k)
+			}
+		}
+		if got := c.cur.row(0, d.minor).t; got != want {
+			fp := "C07:refresh-total"
+			if invalidate {
+				fp = "C07:device-delete-not-invalidated"
+			}
+			h.Fail(fp, "device event kind %d (shapes %d %d): GPU %d total %v want %v", kind, sa, sb, d.minor, got, want)
+		}
+	}
 }
 
 // ---- read-only cycles ----
@@ -3058,6 +3176,17 @@ func (c *c07EvCase) dryFilter(cy *c07Cycle) {
 		return
 	}
 	pre := state.preemptibleDevices[c07Node][schedulingv1alpha1.GPU]
+	// the clause reads "preemptible" as an amount victims give back: armed when no entry is negative (an AddPod that
+	// does not mirror an earlier RemovePod drives entries negative; calcFreeWithPreemptible then falls back to the plain
+	// free amount when its own result is zero - compared with the model, not judged here)
+	for _, rl := range pre {
+		for _, q := range rl {
+			if q.Sign() < 0 {
+				h.Tag("ro:Filter:negative-preemptible")
+				return
+			}
+		}
+	}
 	fits := false
 	for _, d := range c.inv[0] {
 		row := c.cur.row(0, d.minor)
@@ -3076,6 +3205,53 @@ func (c *c07EvCase) dryFilter(cy *c07Cycle) {
 	if fits != st.IsSuccess() {
 		h.Fail("C07:dry-run-filter-verdict", "Filter of a preemptor requesting %v answered %v although fits=%v on total - (used - preemptible)", cy.req, st, fits)
 	}
+}
+
+// further pipeline steps that read the cache with the cycle's state; their results are not modelled (`roany`), the book
+// must come out unchanged: Score, FilterNominateReservation, ScoreReservation
+func (c *c07EvCase) dryOther(cy *c07Cycle) {
+	h, r := c.h, c.r
+	h.Op("roany")
+	c.readOnly("Score", func() { c.pl.Score(context.TODO(), cy.cs, cy.pod, c.ni) })
+	h.Tag("ro:Score")
+	if len(c.rsvs) == 0 {
+		return
+	}
+	ri := c.rInfo(c.rsvs[r.Intn(len(c.rsvs))])
+	h.Op("roany")
+	c.readOnly("FilterNominateReservation", func() { c.pl.FilterNominateReservation(context.TODO(), cy.cs, cy.pod, ri, c07Node) })
+	h.Tag("ro:FilterNominateReservation")
+	if r.Bool() {
+		h.Op("roany")
+		c.readOnly("ScoreReservation", func() { c.pl.ScoreReservation(context.TODO(), cy.cs, cy.pod, ri, c07Node) })
+		h.Tag("ro:ScoreReservation")
+	}
+}
+
+// a pre-allocation cycle: the live pods are the pre-allocatable pods of a reservation being scheduled
+func (c *c07EvCase) preAllocationCycle(rv *c07EvRsv) {
+	h := c.h
+	cy := c.beginCycle()
+	if !cy.preFilter {
+		return
+	}
+	ri := c.rInfo(rv)
+	var pods []*corev1.Pod
+	for _, pp := range c.pods {
+		pods = append(pods, c07EvPodObj(pp.id, nil, c07Node))
+	}
+	h.Op("roany")
+	c.readOnly("RestoreReservationPreAllocation", func() {
+		c.pl.PreRestoreReservationPreAllocation(context.TODO(), cy.cs, ri)
+		c.pl.RestoreReservationPreAllocation(context.TODO(), cy.cs, ri, pods, c.ni)
+	})
+	h.Tag("ro:RestoreReservationPreAllocation")
+	cy.restored = true
+	c.dryFilter(cy)
+	h.Op("roany")
+	c.readOnly("FilterNominateReservation (pre-allocation)", func() {
+		c.pl.FilterNominateReservation(context.TODO(), cy.cs, cy.pod, ri, c07Node)
+	})
 }
 
 func (c *c07EvCase) rsvListTok(l []*c07EvRsv) string {
@@ -3170,6 +3346,7 @@ func TestVerifC07Events(t *testing.T) {
 		podH := cache.ResourceEventHandlerFuncs{AddFunc: c.cache.onPodAdd, UpdateFunc: c.cache.onPodUpdate, DeleteFunc: c.cache.onPodDelete}
 		c.podH = podH
 		c.rsvH = reservationutil.NewReservationToPodEventHandler(podH, reservationutil.IsObjValidActiveReservation)
+		c.devH = cache.ResourceEventHandlerFuncs{AddFunc: c.cache.onDeviceAdd, UpdateFunc: c.cache.onDeviceUpdate, DeleteFunc: c.cache.onDeviceDelete}
 		malformed := r.Chance(1, 4)
 		if malformed {
 			h.Tag("stream:malformed-shapes")
@@ -3190,6 +3367,9 @@ func TestVerifC07Events(t *testing.T) {
 			id := c.nextPod
 			c.nextPod++
 			ms := c.healthyMinors()
+			if len(ms) == 0 { // every GPU is unhealthy right now: the pod lands on one anyway (a raw informer add)
+				ms = []int{c.inv[0][0].minor}
+			}
 			if rv := c.findRsv(rsvID); rv != nil { // an owner pod sits on its reservation's GPUs
 				ms = nil
 				for _, a := range rv.g[0] {
@@ -3211,6 +3391,9 @@ func TestVerifC07Events(t *testing.T) {
 			id := c.nextRsv
 			c.nextRsv++
 			ms := c.healthyMinors()
+			if len(ms) == 0 {
+				ms = []int{c.inv[0][0].minor}
+			}
 			g := c07Groups{0: nil}
 			k := 1
 			if len(ms) > 1 && r.Chance(1, 3) {
@@ -3338,7 +3521,38 @@ func TestVerifC07Events(t *testing.T) {
 						c.evRsvDelete(garbage(), rv)
 					}
 				}
-			case x < 80: // preemption dry-run over the live pods (>= 3 victims when there are that many)
+			case x < 63: // Device informer event: resync, health toggle, delete (object / tombstone / garbage), re-add
+				switch y := r.Intn(10); {
+				case y < 2:
+					c.evDevice(0, c07ShObj, 0)
+				case y < 5:
+					if r.Bool() && len(c.inv[0]) > 0 {
+						i := r.Intn(len(c.inv[0]))
+						c.inv[0][i].healthy = !c.inv[0][i].healthy
+					}
+					c.evDevice(1, c07ShObj, c07ShObj)
+				case y < 8:
+					sh := c07ShObj
+					if r.Bool() {
+						sh = c07ShTomb
+					}
+					c.evDevice(2, sh, 0)
+					if r.Chance(2, 3) { // koordlet re-creates the Device object
+						c.evDevice(0, c07ShObj, 0)
+					}
+				default:
+					if malformed {
+						switch r.Intn(3) {
+						case 0:
+							c.evDevice(0, garbage(), 0)
+						case 1:
+							c.evDevice(1, c07ShObj, garbage())
+						default:
+							c.evDevice(2, garbage(), 0)
+						}
+					}
+				}
+			case x < 82: // preemption dry-run over the live pods (>= 3 victims when there are that many)
 				if len(c.pods) == 0 {
 					continue
 				}
@@ -3351,7 +3565,8 @@ func TestVerifC07Events(t *testing.T) {
 				if k > 3 && r.Bool() {
 					k = r.Range(3, k)
 				}
-				var removed []*c07EvPod
+				type victim struct{ id, rsv int }
+				var removed []victim
 				for _, i := range pm[:k] {
 					pp := c.pods[i]
 					rsvID := pp.rsv
@@ -3359,24 +3574,47 @@ func TestVerifC07Events(t *testing.T) {
 						rsvID = c.rsvs[r.Intn(len(c.rsvs))].id // the cache names a reservation the pod is not recorded in
 					}
 					c.dryPod(cy, true, pp.id, rsvID)
-					removed = append(removed, pp)
+					removed = append(removed, victim{pp.id, rsvID})
+				}
+				if len(c.rsvs) > 0 && r.Chance(1, 4) { // a reservation itself is a victim (its reserve pod)
+					rv := c.rsvs[r.Intn(len(c.rsvs))]
+					c.dryPod(cy, true, rv.id, 0)
+					removed = append(removed, victim{rv.id, 0})
+					h.Tag("ro:victim-is-reserve-pod")
 				}
 				if r.Chance(1, 6) {
 					c.dryPod(cy, true, 70+r.Intn(5), 0) // a victim the cache does not know
 				}
 				c.dryFilter(cy)
-				// reprieve some victims
-				for _, pp := range removed {
+				// reprieve some victims (the reservation cache answers as it did at the removal; 1 in 12: it does not, or the
+				// pod was never removed - a nominated pod - which drives the preemptible amounts negative)
+				for _, v := range removed {
 					if r.Chance(1, 3) {
-						c.dryPod(cy, false, pp.id, pp.rsv)
+						rsvID := v.rsv
+						if r.Chance(1, 12) {
+							rsvID = 0
+							h.Tag("ro:AddPod-mismatched")
+						}
+						c.dryPod(cy, false, v.id, rsvID)
 					}
+				}
+				if len(c.pods) > k && r.Chance(1, 12) {
+					c.dryPod(cy, false, c.pods[pm[k]].id, 0)
+					h.Tag("ro:AddPod-never-removed")
 				}
 				if r.Bool() {
 					c.dryFilter(cy)
 				}
+				if r.Chance(1, 3) {
+					c.dryOther(cy)
+				}
 				h.Tag(fmt.Sprintf("ro:victims:%d", k))
 			default: // reservation restore (+ Filter, + dry-run removal of owner pods)
 				if len(c.rsvs) == 0 {
+					continue
+				}
+				if r.Chance(1, 5) && len(c.pods) > 0 {
+					c.preAllocationCycle(c.rsvs[r.Intn(len(c.rsvs))])
 					continue
 				}
 				cy := c.beginCycle()
@@ -3400,6 +3638,9 @@ func TestVerifC07Events(t *testing.T) {
 				}
 				c.restore(cy, matched, unmatched)
 				c.dryFilter(cy)
+				if r.Chance(1, 2) {
+					c.dryOther(cy)
+				}
 				if r.Chance(1, 3) {
 					for _, pp := range c.pods {
 						if pp.rsv != 0 && r.Bool() {
@@ -3430,6 +3671,7 @@ func TestVerifC07Events(t *testing.T) {
 //   reservation 500 (GPU 0, 50 %) add as object / as tombstone, delete in each of the six shapes, update to Succeeded               9
 //   a preemption dry-run over the victims 3, 1, 2 in this order (first on its own GPU, second and third share one) + Filter         1
 //   a reservation restore (500 matched, owners 1 and 2) + Filter                                                                   1
+//   Device informer: add (re-creation), delete in each of the six shapes                                                           7
 // on a node with two GPUs; full observation after every step, all oracle clauses of the events harness.
 // ---------------------------------------------------------------------------------------------------------------
 func TestVerifC07EventsExhaustive(t *testing.T) {
@@ -3450,7 +3692,7 @@ func TestVerifC07EventsExhaustive(t *testing.T) {
 	}
 	nodeInfo := framework.NewNodeInfo()
 	nodeInfo.SetNode(node)
-	type xop struct{ kind, who, shape int } // kind 0 pod add, 1 pod delete, 2 rsv add, 3 rsv delete, 4 rsv succeeded, 5 dry-run, 6 restore
+	type xop struct{ kind, who, shape int } // kind 0 pod add, 1 pod delete, 2 rsv add, 3 rsv delete, 4 rsv succeeded, 5 dry-run, 6 restore, 7 device event (who = 0 add | 2 delete)
 	var alphabet []xop
 	for who := 1; who <= 3; who++ {
 		alphabet = append(alphabet, xop{0, who, c07ShObj})
@@ -3464,7 +3706,10 @@ func TestVerifC07EventsExhaustive(t *testing.T) {
 	for sh := c07ShObj; sh <= c07ShOther; sh++ {
 		alphabet = append(alphabet, xop{3, 500, sh})
 	}
-	alphabet = append(alphabet, xop{4, 500, 0}, xop{5, 0, 0}, xop{6, 0, 0})
+	alphabet = append(alphabet, xop{4, 500, 0}, xop{5, 0, 0}, xop{6, 0, 0}, xop{7, 0, c07ShObj})
+	for sh := c07ShObj; sh <= c07ShOther; sh++ {
+		alphabet = append(alphabet, xop{7, 2, sh})
+	}
 	maxLen := vEnvInt("VERIF_C07_EVXLEN", 3)
 	idx := 0
 	run := func(hist []xop) {
@@ -3485,6 +3730,7 @@ func TestVerifC07EventsExhaustive(t *testing.T) {
 		podH := cache.ResourceEventHandlerFuncs{AddFunc: c.cache.onPodAdd, UpdateFunc: c.cache.onPodUpdate, DeleteFunc: c.cache.onPodDelete}
 		c.podH = podH
 		c.rsvH = reservationutil.NewReservationToPodEventHandler(podH, reservationutil.IsObjValidActiveReservation)
+		c.devH = cache.ResourceEventHandlerFuncs{AddFunc: c.cache.onDeviceAdd, UpdateFunc: c.cache.onDeviceUpdate, DeleteFunc: c.cache.onDeviceDelete}
 		c.inv[0] = []c07Dev{{minor: 0, healthy: true, res: c07Vec{100, c.mem, 100}, numa: -1}, {minor: 1, healthy: true, res: c07Vec{100, c.mem, 100}, numa: -1}}
 		c.applyInventory(false)
 		pods := map[int]*c07EvPod{
@@ -3508,6 +3754,8 @@ func TestVerifC07EventsExhaustive(t *testing.T) {
 				if c.findRsv(500) != nil {
 					c.evRsvUpdate(rv, true)
 				}
+			case 7:
+				c.evDevice(op.who, op.shape, 0)
 			case 5:
 				cy := c.beginCycle()
 				for _, id := range []int{3, 1, 2} {
@@ -3544,6 +3792,6 @@ func TestVerifC07EventsExhaustive(t *testing.T) {
 	}
 	h.Extra("exhaustive", fmt.Sprintf("all sequences of 1..%d steps over an alphabet of %d event / read-only steps: %d cases", maxLen, len(alphabet), idx))
 	h.Close("exhaustive enumeration of every sequence of 1-3 steps over: pod add (3 pods, two sharing a GPU and owned by a reservation), pod delete in all six delivery shapes, " +
-		"reservation add (object / tombstone) / delete in all six shapes / Succeeded, a 3-victim preemption dry-run + Filter, a reservation restore + Filter; 2 GPUs; " +
+		"reservation add (object / tombstone) / delete in all six shapes / Succeeded, a 3-victim preemption dry-run + Filter, a reservation restore + Filter, Device add / delete in all six shapes; 2 GPUs; " +
 		"full book observed after every step; non-trivial = at least 2 steps")
 }
